@@ -40,6 +40,15 @@ pub const IMPLEMENTED: [&str; 24] = [
 ];
 
 pub fn validate(doc: &TsDoc) -> Vec<Finding> {
+    // `extend scalar Int @d` extends the implicit definition of a built-in scalar: make it explicit
+    let mut implicit_builtins: BTreeSet<String> = BTreeSet::new();
+    let mut owned = doc.clone();
+    for d in &doc.defs {
+        if d.ext && d.kind == TsKind::Scalar && crate::schema::BUILTIN_SCALARS.contains(&d.name_str()) && !doc.defs.iter().any(|x| !x.ext && x.kind == TsKind::Scalar && x.name_str() == d.name_str()) && implicit_builtins.insert(d.name_str().to_string()) {
+            owned.defs.insert(0, TsDef::new(TsKind::Scalar, Some(d.name_str())));
+        }
+    }
+    let doc = &owned;
     let mut out = vec![];
     // same-kind duplicates / orphan extensions (extension resolution)
     let mut seen: BTreeSet<(TsKind, String)> = BTreeSet::new();
@@ -78,7 +87,7 @@ pub fn validate(doc: &TsDoc) -> Vec<Finding> {
     }
     // builtin redefinition
     for d in &merged {
-        if d.kind != TsKind::Schema && d.kind != TsKind::Directive && crate::schema::BUILTIN_SCALARS.contains(&d.name_str()) {
+        if d.kind != TsKind::Schema && d.kind != TsKind::Directive && crate::schema::BUILTIN_SCALARS.contains(&d.name_str()) && !(d.kind == TsKind::Scalar && implicit_builtins.contains(d.name_str())) {
             out.push(f("dup.builtin", d.name_str().to_string()));
         }
         if d.kind == TsKind::Directive && ["skip", "include", "deprecated", "specifiedBy"].contains(&d.name_str()) {
